@@ -5,8 +5,9 @@
      Decorate(d, k, b)  a body of kind b (plain return / generator yielding a child task / generator blocking
                         on a batch item) is defined as a k (function / method / classmethod / staticmethod) and
                         decorated with d;
-     Access(via)        the attribute is reached (directly, through an instance, the class, a subclass, an
-                        instance of a subclass, a FALSY instance): the descriptor protocol binds;
+     Access(via, w)     the attribute is reached (directly, through an instance, the class, a subclass, an
+                        instance of a subclass, a FALSY instance): the descriptor protocol binds; the result may
+                        be wrapped in w layers of a foreign synchronous wrapper exposing `.fn`;
      Call(c, p)         the accessed object is called through convention c with argument pattern p.
    A history is MaxCalls Access+Call steps on the SAME decorated attribute (CALLS=2: every ordered pair of access
    paths, conventions and patterns): each call is prescribed exactly as if it were the only one - the bound
@@ -29,6 +30,7 @@ EXTENDS Naturals, Sequences, FiniteSets, TLC, Json, IOUtils
 
 MaxCalls == IF "CALLS" \in DOMAIN IOEnv THEN atoi(IOEnv.CALLS) ELSE 1
 Pats     == IF "PATS" \in DOMAIN IOEnv THEN IOEnv.PATS ELSE "all"      \* "all" | "few" | "one"
+MaxWrap  == IF "WRAPS" \in DOMAIN IOEnv THEN atoi(IOEnv.WRAPS) ELSE 2   \* layers of foreign wrappers
 
 Decos  == {"plain", "asynq", "pure", "proxy_task", "proxy_const", "asynq_sync", "proxy_sync", "mad", "dedup",
            "aretry", "alru", "acpi"}
@@ -51,16 +53,20 @@ ViasOf(k) == CASE k = "function" -> {"direct"}
                [] k = "classmethod" -> {"cls", "inst", "sub", "subinst"}
                [] k = "staticmethod" -> {"cls", "inst"}
 
+(* w = number of FOREIGN WRAPPERS around the accessed object: plain synchronous callables that expose the wrapped
+   callable as `.fn`, have no `asynq` / `is_pure_async_fn` of their own and whose call passes its arguments on unchanged to self.fn.
+   Calling such a wrapper IS the direct (synchronous) call of what it wraps: it returns a future exactly when the
+   wrapped callable is pure, it has no .asynq, and a sync_fn pair runs sync_fn on every way of calling it. *)
 IsPure(d)    == d = "pure"                       \* the direct call returns a future instead of a value
-HasAsynq(d)  == d \notin {"pure", "plain"}       \* there is an .asynq attribute
+HasAsynq(d, w) == w = 0 /\ d \notin {"pure", "plain"}      \* there is an .asynq attribute
 HasSyncFn(d) == d \in {"asynq_sync", "proxy_sync"}
-ConvsOf(d) == CASE d = "plain" -> {"sync", "async_call", "get_async_or_sync_fn"}
-                [] d = "pure" -> Convs \ {"asynq"}
-                [] OTHER -> Convs
+ConvsOf(d, w) == CASE d = "pure" -> Convs \ {"asynq"}
+                   [] d = "plain" \/ w > 0 -> {"sync", "async_call", "get_async_or_sync_fn"}
+                   [] OTHER -> Convs
 
 VARIABLES deco, defk, body, obj, hist
 vars == <<deco, defk, body, obj, hist>>
-NoObj == [via |-> "none", inst |-> "none"]
+NoObj == [via |-> "none", inst |-> "none", wrap |-> 0]
 
 Init == deco = "none" /\ defk = "none" /\ body = "none" /\ obj = NoObj /\ hist = <<>>
 
@@ -84,23 +90,23 @@ ClassOf(via) == CASE via \in {"inst", "cls"} -> "cls" [] via \in {"subinst", "su
 StatedBound(k, via) == CASE k = "method" -> (IF via = "cls" THEN "inst" ELSE via)
                          [] k = "classmethod" -> ClassOf(via)
                          [] OTHER -> "none"
-StatedRan(d, c) == IF c = "sync" /\ HasSyncFn(d) THEN "sync" ELSE "async"
+StatedRan(d, w, c) == IF HasSyncFn(d) /\ (c = "sync" \/ w > 0) THEN "sync" ELSE "async"
 Extra(d, b, ran, a) == IF ran = "sync" THEN 0
                        ELSE CASE b = "plain" -> 0 [] b = "gen" -> a + 100 [] b = "batch" -> a + 200
-ReturnsFuture(d, c) == CASE c = "sync" -> IsPure(d)
-                         [] c = "get_async_or_sync_fn" -> d # "plain"
+ReturnsFuture(d, w, c) == CASE c = "sync" -> IsPure(d)
+                         [] c = "get_async_or_sync_fn" -> IF w = 0 THEN d # "plain" ELSE IsPure(d)
                          [] c \in {"asynq", "get_async_fn"} -> TRUE
                          [] OTHER -> FALSE          \* the value is delivered to the yielding task
-Stated(d, k, b, via, c, p) ==
+Stated(d, k, b, via, w, c, p) ==
   LET n == Normalise(PosOf(p), KwOf(p))
-      ran == StatedRan(d, c) IN
+      ran == StatedRan(d, w, c) IN
   [ran |-> ran, bound |-> StatedBound(k, via), a |-> n.a, b |-> n.b, k |-> n.k,
    extra |-> Extra(d, b, ran, n.a), wrapped |-> IF d = "mad" THEN 1 ELSE 0,
-   fut |-> IF ReturnsFuture(d, c) THEN 1 ELSE 0]
+   fut |-> IF ReturnsFuture(d, w, c) THEN 1 ELSE 0]
 
-Classification(d) ==
-  [is_async |-> IF d # "plain" THEN 1 ELSE 0, is_pure |-> IF IsPure(d) THEN 1 ELSE 0,
-   has_async |-> IF HasAsynq(d) THEN 1 ELSE 0, get_async_fn_none |-> IF d = "plain" THEN 1 ELSE 0]
+Classification(d, w) ==
+  [is_async |-> IF IsPure(d) \/ HasAsynq(d, w) THEN 1 ELSE 0, is_pure |-> IF IsPure(d) THEN 1 ELSE 0,
+   has_async |-> IF HasAsynq(d, w) THEN 1 ELSE 0, get_async_fn_none |-> IF IsPure(d) \/ HasAsynq(d, w) THEN 0 ELSE 1]
 
 (* ---- the mechanism: descriptor protocol and binders ---- *)
 OwnerOf(via) == IF via \in {"inst", "subinst", "falsy"} THEN via ELSE "none"
@@ -113,9 +119,9 @@ Explicit(k, via) == IF k = "method" /\ via = "cls" THEN <<"inst">> ELSE <<>>
 BinderPath(k, o) == Prepend(o.inst) \o Explicit(k, o.via)                  \* binder.__call__ / .asynq prepend
 SyncFnPath(k, o) ==                 \* sync_fn bound by its own __get__; the pair's binder must NOT prepend
   Prepend(BindGet(TypeOf(k), OwnerOf(o.via), ClassOf(o.via))) \o Explicit(k, o.via)
-AsyncCallRoute(d) == IF IsPure(d) THEN "sync" ELSE IF HasAsynq(d) THEN "asynq" ELSE "sync"
-Derived(d, k, o, c) ==
-  LET route == IF c = "async_call" THEN AsyncCallRoute(d) ELSE c
+AsyncCallRoute(d, w) == IF IsPure(d) THEN "sync" ELSE IF HasAsynq(d, w) THEN "asynq" ELSE "sync"
+Derived(d, k, o, c) ==          \* a foreign wrapper forwards its arguments unchanged to the direct call
+  LET route == IF o.wrap > 0 THEN "sync" ELSE IF c = "async_call" THEN AsyncCallRoute(d, 0) ELSE c
       ran == IF route = "sync" /\ HasSyncFn(d) THEN "sync" ELSE "async"
       prefix == IF ran = "sync" /\ d = "asynq_sync" THEN SyncFnPath(k, o) ELSE BinderPath(k, o) IN
   [ran |-> ran, prefix |-> prefix]
@@ -126,59 +132,61 @@ Decorate(d, k, b) ==
   /\ deco' = d /\ defk' = k /\ body' = b
   /\ UNCHANGED <<obj, hist>>
 
-Access(via) ==
+Access(via, w) ==
   /\ deco # "none" /\ obj = NoObj /\ Len(hist) < MaxCalls /\ via \in ViasOf(defk)
-  /\ obj' = [via |-> via, inst |-> IF defk = "function" THEN "none"
+  /\ obj' = [via |-> via, wrap |-> w, inst |-> IF defk = "function" THEN "none"
                                    ELSE BindGet(TypeOf(defk), OwnerOf(via), ClassOf(via))]
   /\ UNCHANGED <<deco, defk, body, hist>>
 
 Call(c, p) ==
-  /\ obj # NoObj /\ c \in ConvsOf(deco)
-  /\ hist' = Append(hist, [via |-> obj.via, conv |-> c, argp |-> p, pos |-> PosOf(p), kw |-> KwOf(p),
-                           cls |-> Classification(deco), res |-> Stated(deco, defk, body, obj.via, c, p)])
+  /\ obj # NoObj /\ c \in ConvsOf(deco, obj.wrap)
+  /\ hist' = Append(hist, [via |-> obj.via, wrap |-> obj.wrap, conv |-> c, argp |-> p, pos |-> PosOf(p), kw |-> KwOf(p),
+                           cls |-> Classification(deco, obj.wrap),
+                           res |-> Stated(deco, defk, body, obj.via, obj.wrap, c, p)])
   /\ obj' = NoObj
   /\ UNCHANGED <<deco, defk, body>>
 
 Next == \/ \E d \in Decos, k \in DefKs, b \in Bodies : Decorate(d, k, b)
-        \/ \E via \in {"direct", "inst", "cls", "sub", "subinst", "falsy"} : Access(via)
+        \/ \E via \in {"direct", "inst", "cls", "sub", "subinst", "falsy"}, w \in 0..MaxWrap : Access(via, w)
         \/ \E c \in Convs, p \in ArgPats : Call(c, p)
 Spec == Init /\ [][Next]_vars
 
 (* ---- the property, on the model (evaluated in every state in which an object has been accessed) ---- *)
-Cell(c, p) == Stated(deco, defk, body, obj.via, c, p)
+Cell(c, p) == Stated(deco, defk, body, obj.via, obj.wrap, c, p)
 ConventionsAgree ==        \* same bound object, same arguments; same body and outcome unless sync_fn steps in
   (* every convention is compared with async_call, which exists for every kind: agreement with a common
      reference is pairwise agreement *)
   obj # NoObj => \A p \in AllPats :
     LET r == Cell("async_call", p) IN
-    \A c \in ConvsOf(deco) :
+    \A c \in ConvsOf(deco, obj.wrap) :
       LET x == Cell(c, p) IN
       /\ x.bound = r.bound
       /\ <<x.a, x.b, x.k>> = <<r.a, r.b, r.k>>
       /\ (x.ran = r.ran => x.extra = r.extra /\ x.wrapped = r.wrapped)
-      /\ (x.ran # r.ran => HasSyncFn(deco) /\ c = "sync")
-SyncFnWins ==
-  obj # NoObj => \A p \in AllPats : \A c \in ConvsOf(deco) :
-    Cell(c, p).ran = IF HasSyncFn(deco) /\ c = "sync" THEN "sync" ELSE "async"
+      /\ (x.ran # r.ran => HasSyncFn(deco) /\ c = "sync" /\ obj.wrap = 0)
+SyncFnWins ==              \* sync_fn runs exactly on the ways of calling that are the synchronous call
+  obj # NoObj => \A p \in AllPats : \A c \in ConvsOf(deco, obj.wrap) :
+    Cell(c, p).ran = IF HasSyncFn(deco) /\ (c = "sync" \/ obj.wrap > 0) THEN "sync" ELSE "async"
 BoundOnce ==               \* the mechanism passes the bound object exactly once on every path, and it is the stated one
-  obj # NoObj => \A c \in ConvsOf(deco) :
+  obj # NoObj => \A c \in ConvsOf(deco, obj.wrap) :
     LET dv == Derived(deco, defk, obj, c) IN
-    /\ dv.ran = StatedRan(deco, c)
+    /\ dv.ran = StatedRan(deco, obj.wrap, c)
     /\ dv.prefix = Prepend(StatedBound(defk, obj.via))
 ClassificationConsistent ==
-  deco # "none" =>
-    LET cl == Classification(deco) IN
-    /\ (cl.is_pure = 1) <=> ReturnsFuture(deco, "sync")
-    /\ (cl.has_async = 1) <=> ("asynq" \in ConvsOf(deco))
+  deco # "none" => \A w \in 0..MaxWrap :
+    LET cl == Classification(deco, w) IN
+    /\ (cl.is_pure = 1) <=> ReturnsFuture(deco, w, "sync")
+    /\ (cl.has_async = 1) <=> ("asynq" \in ConvsOf(deco, w))
     /\ (cl.is_async = 1) <=> (cl.is_pure = 1 \/ cl.has_async = 1)
     /\ (cl.get_async_fn_none = 1) <=> (cl.is_async = 0)
-    /\ (cl.is_async = 1) <=> ("get_async_fn" \in ConvsOf(deco))
+    /\ (cl.is_async = 1) <=> ("get_async_fn" \in ConvsOf(deco, w))
+    /\ (cl.is_async = 0) => ~ReturnsFuture(deco, w, "get_async_or_sync_fn")   \* "otherwise returns source"
 
 CallsIndependent ==        \* what is prescribed for a call does not depend on the calls before it (but for the values)
   [][Len(hist') > Len(hist) =>
        LET o == hist'[Len(hist')] IN
-       /\ o.res.bound = StatedBound(defk, o.via) /\ o.res.ran = StatedRan(deco, o.conv)
-       /\ o.cls = Classification(deco)]_vars
+       /\ o.res.bound = StatedBound(defk, o.via) /\ o.res.ran = StatedRan(deco, o.wrap, o.conv)
+       /\ o.cls = Classification(deco, o.wrap)]_vars
 
 Terminal == Len(hist) = MaxCalls
 Export == Terminal => PrintT(ToJson([deco |-> deco, defk |-> defk, body |-> body, h |-> hist]))
